@@ -245,3 +245,52 @@ def _filter_cmp_calls(repo):
     lean = ("def filterCmpCalls : List (String × String × String × String) := [" +
             ", ".join(f"({lean_str(a)}, {lean_str(b)}, {lean_str(c)}, {lean_str(d)})" for a, b, c, d in rows) + "]")
     return rows, lean
+
+
+@item("C07_DERIVED_MAPS")
+def _derived_maps(repo):
+    """how the dictionaries derived from other dictionaries are built and looked up, read off the source:
+    `(mechanism, shape)` for `dict(m)` (functions.rs: the entries inserted one by one, or collected),
+    `MergeDict::enumerate` (value/merge_object.rs: the keys inserted one by one into a `BTreeSet`, or collected),
+    `MergeDict::get_value` (a key whose entries all hold undefined values is found as undefined, or not found),
+    `namespace(m)` (functions.rs: which accessor decides that a key is an attribute name) and the Map arm of
+    `ops::contains` (what `k in m` asks the object)."""
+    rows = []
+    fsrc = re.sub(r"//.*", "", read(repo, "minijinja/src/functions.rs"))
+    db = fn_body(fsrc, r"pub fn dict\([^{]*\{")
+    arm = re.search(r"obj\.repr\(\)\s*==\s*ObjectRepr::Map\s*=>\s*\{", db)
+    if arm:
+        ab = fn_body(db[arm.start():], r"=>\s*\{")
+        if re.search(r"for\s*\(\s*key\s*,\s*value\s*\)\s*in\s*obj\.try_iter_pairs\(\)\.into_iter\(\)\.flatten\(\)\s*\{\s*rv\.insert\(key,\s*value\);\s*\}", ab):
+            rows.append(("dict", "insert-loop"))
+        else:
+            rows.append(("dict", "other:" + re.sub(r"\s+", " ", ab.strip())[:120]))
+    elif re.search(r"try_iter_pairs\(\)\.into_iter\(\)\.flatten\(\)\.collect\(\)", db):
+        rows.append(("dict", "collect"))
+    else:
+        raise KeyError("dict: no arm for map objects")
+    msrc = re.sub(r"//.*", "", read(repo, "minijinja/src/value/merge_object.rs"))
+    mb = fn_body(msrc, r"impl Object for MergeDict\s*\{")
+    eb = fn_body(mb, r"fn enumerate\([^{]*\{")
+    if re.search(r"BTreeSet::new\(\)", eb) and re.search(r"\{\s*keys\.insert\(key\);\s*\}", eb) and ".collect" not in eb:
+        rows.append(("MergeDict::enumerate", "insert-loop"))
+    else:
+        rows.append(("MergeDict::enumerate", "other:" + re.sub(r"\s+", " ", eb.strip())[:120]))
+    gb = fn_body(mb, r"fn get_value\([^{]*\{")
+    if (re.search(r"for value in self\.values\.iter\(\)\.rev\(\)", gb) and re.search(r"present\s*=\s*true;", gb)
+            and re.search(r"if present\s*\{\s*Some\(Value::UNDEFINED\)\s*\}\s*else\s*\{\s*None\s*\}", gb)
+            and re.search(r"if !v\.is_undefined\(\)\s*\{\s*return Some\(v\);\s*\}", gb)):
+        rows.append(("MergeDict::get_value", "last-defined-wins,undefined-entries-found"))
+    else:
+        rows.append(("MergeDict::get_value", "other:" + re.sub(r"\s+", " ", gb.strip())[:120]))
+    nb = fn_body(fsrc, r"pub fn namespace\([^{]*\{")
+    acc = re.search(r"if let Some\(key\)\s*=\s*key\.(\w+)\(\)\s*\{\s*ns\.set_value\(key,\s*value\);\s*\}", nb)
+    rows.append(("namespace", acc.group(1) if acc else "other:" + re.sub(r"\s+", " ", nb.strip())[:120]))
+    osrc = re.sub(r"//.*", "", read(repo, "minijinja/src/value/ops.rs"))
+    cb = fn_body(osrc, r"pub fn contains\([^{]*\{")
+    cm = re.search(r"ObjectRepr::Map\s*=>\s*([^,]+),", cb)
+    if not cm:
+        raise KeyError("ops::contains: no Map arm")
+    rows.append(("contains-map", re.sub(r"\s+", "", cm.group(1))))
+    lean = "def derivedMaps : List (String × String) := [" + ", ".join(f"({lean_str(a)}, {lean_str(b)})" for a, b in rows) + "]"
+    return rows, lean
